@@ -4,6 +4,7 @@ package main
 
 import (
 	"fmt"
+	"go/ast"
 	"go/types"
 	"regexp"
 	"strings"
@@ -168,6 +169,36 @@ func specByPattern(key string) specFn {
 			n, so := e.heapName(el)
 			e.setComp(cc.st, n, so, Store(e.comp(cc.st, n, so), r, e.asTerm(cc.args[0])))
 			return Val{T: cc.resT, Term: r}
+		}
+	}
+	isZcache := strings.HasPrefix(key, "(*zgo.at/zcache/v2.Cache[") || strings.HasPrefix(key, "(*zgo.at/zcache/v2.cache[")
+	if isZcache && strings.HasSuffix(key, ").Get") {
+		// a cache shared with concurrent calls and subject to expiry: every Get may return anything
+		// that satisfies the cache's entry invariant
+		return func(e *Exec, cc *callCtx) Val {
+			v := e.havocVal(cc.resT, cc.f.prefix+"cacheGet")
+			e.refBoundNew(cc.st, v)
+			if len(v.Tup) == 2 {
+				for _, t := range e.entryInvTerms(cc.st, v.Tup[0]) {
+					e.assume(Implies(v.Tup[1].Term, t.term), "entry invariant of the cache")
+				}
+			}
+			return v
+		}
+	}
+	if isZcache && (strings.HasSuffix(key, ").Set") || strings.HasSuffix(key, ").SetWithExpire")) {
+		return func(e *Exec, cc *callCtx) Val {
+			if len(cc.args) >= 3 {
+				for _, t := range e.entryInvTerms(cc.st, cc.args[2]) {
+					e.oblige("entry-inv", "Set", mergeProps(t.cl.Props, e.rootProps()), cc.reach, t.term, "value stored in the cache satisfies its entry invariant: "+t.cl.Text, "entry-invariant "+t.cl.Text)
+				}
+			}
+			return Val{T: cc.resT, Term: "0"}
+		}
+	}
+	if strings.HasPrefix(key, "zgo.at/zcache/v2.New[") {
+		return func(e *Exec, cc *callCtx) Val {
+			return Val{T: cc.resT, Term: e.freshRef(cc.st, "zcache")}
 		}
 	}
 	m := methodKeyRe.FindStringSubmatch(key)
@@ -542,4 +573,27 @@ func (e *Exec) evalWriteTargets(env *Env, wc *WritesClause) ([]writeTarget, erro
 		}
 	}
 	return out, nil
+}
+
+// entryInvTerms: the entry invariants declared for the (static) type of v, evaluated with v bound.
+func (e *Exec) entryInvTerms(st *State, v Val) []ginvInst {
+	var out []ginvInst
+	for _, ei := range entryInvs {
+		scope := e.W.anyFuncOf(ei.Pkg)
+		if scope == nil {
+			continue
+		}
+		env := &Env{vars: map[string]Val{}, cur: st, old: st, fn: scope, lets: map[string]ast.Expr{}}
+		t, err := e.resolveType(env, ei.TypeExpr)
+		if err != nil || !types.Identical(unalias(t), unalias(v.T)) {
+			continue
+		}
+		env.vars["v"] = v
+		term, err := e.evalBool(env, ei.Clause.Expr)
+		if err != nil {
+			panic(fmt.Sprintf("fatal: entry-invariant %s: %v", ei.Clause.Text, err))
+		}
+		out = append(out, ginvInst{ei.Clause, term})
+	}
+	return out
 }
